@@ -15,11 +15,11 @@ def walk(c, rep, prop, cfg):
     kind, sp, t, pat, acc = c.inst
     segs = c.impl.split(' | ') if c.impl != 'ok' else []
     it = iter(segs)
-    pool = [None] * 4; pool2 = [None] * 2; writes = {}
+    pool = [None] * 4; pool2 = [None] * 2; pool3 = [None] * 2; writes = {}
     pub = dict(config=cfg, **c.pub())
     hasid = acc in ('st', 'px')
-    def comp(h, es, pv, accid):
-        return dict(h=(0 if acc == 'eh' else h), e=list(es), s=V.spec_strides(kind, sp, pat, list(es), c.str, pv), acc=accid)
+    def comp(h, es, pv, accid, ss=None):
+        return dict(h=(0 if acc == 'eh' else h), e=list(es), s=V.spec_strides(kind, sp, pat, list(es), c.str if ss is None else ss, pv), acc=accid)
     def bad(k, **kw):
         rep.violation(dict(kind=k, impl=c.impl[:600], **kw, **pub)); return False
     for cmd in c.seq:
@@ -32,6 +32,8 @@ def walk(c, rep, prop, cfg):
             pool[int(a[1])] = comp(int(a[2]), c.ext, None, 0 if hasid else -1); continue
         if op == 'cmp': pool[int(a[1])] = comp(int(a[2]), c.ext, c.pv, 0 if hasid else -1); continue
         if op == 'cma': pool[int(a[1])] = comp(int(a[2]), c.ext, c.pv, int(a[3]) if hasid else -1); continue
+        if op == 'cm2': pool[int(a[1])] = comp(int(a[2]), c.alt[0], c.alt[2], int(a[3]) if hasid else -1, ss=c.alt[1] if c.alt[1] is not None else []); continue
+        if op == 'c3': pool3[int(a[1])] = dict(pool[int(a[2])]) if pool[int(a[2])] else None; continue
         if op in ('cp', 'mv'): pool[int(a[1])] = dict(pool[int(a[2])]) if pool[int(a[2])] else None; continue
         if op in ('as', 'ma', 'sw'):
             i, j = int(a[1]), int(a[2])
@@ -45,8 +47,8 @@ def walk(c, rep, prop, cfg):
         if op == 'wr': continue
         seg = next(it, None)
         if seg is None: return bad('missing-output', cmd=cmd)
-        if op in ('ob', 'o2'):
-            want = (pool if op == 'ob' else pool2)[int(a[1])]
+        if op in ('ob', 'o2', 'o3'):
+            want = (pool if op == 'ob' else pool2 if op == 'o2' else pool3)[int(a[1])]
             if want is None:
                 if seg != 'none': return bad('empty-slot-reported-as-view', cmd=cmd, got=seg)
                 continue
@@ -59,7 +61,7 @@ def walk(c, rep, prop, cfg):
             if prop == 'C13':
                 es = want['e']; bits = C.ITYPES[t if op == 'ob' else 'i64'][0]
                 szw = C.prod(es) % (2 ** bits); emp = len(es) > 0 and any(e == 0 for e in es)
-                rk = '%d,%d' % (len(es), sum(1 for p in pat if p is None) if op == 'ob' else len(es))
+                rk = '%d,%d' % (len(es), sum(1 for p in pat if p is None) if op == 'ob' else (len(es) if op == 'o2' else 0))
                 if o['sz'] != szw: return bad('size()-differs-from-product-of-extents-in-size_type', cmd=cmd, got=o['sz'], specified=szw, extents=es)
                 if o['emp'] != emp: return bad('empty()-differs-from-(some-extent-is-0)', cmd=cmd, got=o['emp'], extents=es)
                 if o['rk'] != rk or o['fw'] != '1' or o['e'] != es or o['s'] != want['s']:
@@ -100,7 +102,7 @@ RULES = {
 
 def check(prop, tier, seed, replay=None):
     rep = C.Report(prop, tier, seed); audit = C.proof_audit(prop)
-    configs = {'C11': ['gcc20-ubsan', 'gcc20-O2-ndebug-emul'], 'C03': ['gcc20-ubsan', 'gcc23-O0-assert'], 'C13': ['gcc20-ubsan']}[prop]
+    configs = {'C11': ['gcc20-ubsan', 'gcc20-O2-ndebug-emul', 'gcc23-O0-assert-mdspandebug'], 'C03': ['gcc20-ubsan', 'gcc23-O0-assert'], 'C13': ['gcc20-ubsan']}[prop]
     if tier == 'thorough': configs = configs + ['clang20-O0-assert', 'clang17-O0-ndebug-emul', 'gcc17-O2-assert']
     rep.cov['rule'] = RULES[prop]; rep.notes['configs'] = configs
     cases = V.gen_cases(seed, tier, {prop}) if not replay else None
@@ -114,7 +116,8 @@ def check(prop, tier, seed, replay=None):
             if inst is None: continue
             kv = dict(x.split('=', 1) for x in replay['line'].split() if '=' in x)
             f = lambda s: [] if s in (None, '-') else [int(x) for x in s.split(',')]
-            cases = [V.VCase(inst, f(kv.get('ext')), f(kv['str']) if 'str' in kv else None, int(kv['pv']) if 'pv' in kv else None, kv['seq'].split('/'), replay['purpose'], replay.get('meta'))]
+            alt = (f(kv.get('ext2')), f(kv['str2']) if 'str2' in kv else None, int(kv['pv2']) if 'pv2' in kv else None) if 'ext2' in kv else None
+            cases = [V.VCase(inst, f(kv.get('ext')), f(kv['str']) if 'str' in kv else None, int(kv['pv']) if 'pv' in kv else None, kv['seq'].split('/'), replay['purpose'], replay.get('meta'), alt=alt)]
         run = cases
         if '17' in cfg.split('-')[0]:      # std::span forms exist from C++20 on (README)
             run = [c for c in cases if not any(x.startswith(('csd:', 'csa:')) or ':span:' in x for x in c.seq)]
